@@ -573,8 +573,9 @@ Section Lib.
     | TPtr e =>
         match s with
         | BNull => COk VNilPtr
-        | BMedia _ _ => CErr          (* ptrBuilder.BuildFromMedia hands the pointer itself to the media builder *)
         | _ => match conv e s with COk v => COk (mk_ptr e v) | other => other end
+              (* BuildFromMedia too builds into the new element (since /repo commit bfbf710; before,
+                 it handed the pointer destination itself to the media builder, which panicked) *)
         end
     | TStruct _ _ =>
         (* a throw-away structBuilder expects a key: its string builder is given the invalid Value;
